@@ -93,6 +93,16 @@ func fmtPublished(ts time.Time) string {
 	return ts.Format(time.RFC3339Nano)
 }
 
+// stepCapFor: how many scheduler events one request may take before it counts as not returning.
+// Ordinary worlds need a few hundred; only worlds with pages of hundreds of entries or dozens of
+// sources need more (a change that makes a walk endless must not make the check endless).
+func stepCapFor(f *Fedi) int {
+	if f.Big || f.MaxPages > 0 {
+		return 400000
+	}
+	return 40000
+}
+
 func refLimitC11(f *Fedi) int {
 	if f.Big {
 		return 1500
@@ -252,7 +262,7 @@ func scenC11(r *Run) {
 
 	var sp *splicer.Splicer
 	task := r.Spawn("open", func() { sp = splicer.NewSplicer(inputs) })
-	r.Drive(func() bool { return task.Done }, hugeHorizon, 400000)
+	r.Drive(func() bool { return task.Done }, hugeHorizon, 2*stepCapFor(f))
 	if !task.Done || sp == nil {
 		if len(r.S.Violations()) == 0 {
 			r.Violate("C11", "M-live", "newsplicer-did-not-return", "splicer.NewSplicer did not return")
@@ -274,7 +284,7 @@ func scenC11(r *Run) {
 		var out []pub.Tangible
 		var co pub.Container
 		task := r.Spawn(name, func() { out, co, _ = c.Harvest(n, off) })
-		r.Drive(func() bool { return task.Done }, hugeHorizon, 600000)
+		r.Drive(func() bool { return task.Done }, hugeHorizon, 2*stepCapFor(f))
 		if !task.Done {
 			r.Violate("C11", "M-live", "harvest-did-not-return", fmt.Sprintf("feed request %s (n=%d, offset=%d) did not return", name, n, off))
 			return nil, nil, false
@@ -363,7 +373,7 @@ func scenC11(r *Run) {
 			c := cont
 			t1 := r.Spawn(fmt.Sprintf("h%dc1", i), func() { o1, _, _ = c.Harvest(n, off) })
 			t2 := r.Spawn(fmt.Sprintf("h%dc2", i), func() { o2, _, _ = c.Harvest(n, off) })
-			r.Drive(func() bool { return t1.Done && t2.Done }, hugeHorizon, 1200000)
+			r.Drive(func() bool { return t1.Done && t2.Done }, hugeHorizon, 4*stepCapFor(f))
 			if !t1.Done || !t2.Done {
 				r.Violate("C11", "M-live", "concurrent-harvest-did-not-return", "two concurrent requests for the same feed position did not return")
 				return
@@ -418,7 +428,7 @@ func scenC11(r *Run) {
 	if allFinite && !big && !wide && t.Chance(1, 4) {
 		var sp2 *splicer.Splicer
 		task := r.Spawn("reopen", func() { sp2 = splicer.NewSplicer(inputs) })
-		r.Drive(func() bool { return task.Done }, hugeHorizon, 400000)
+		r.Drive(func() bool { return task.Done }, hugeHorizon, 2*stepCapFor(f))
 		if !task.Done || sp2 == nil {
 			return
 		}
